@@ -62,6 +62,27 @@ let () = iter_lines (fun l ->
         (String.concat "," (List.map (fun x -> Printf.sprintf "%x" (i x)) st.d_slots))
         (String.concat "," (List.map (fun x -> match get_cipher_spec g (fun _ -> true) x with Some _ -> "1" | None -> "0") sl))
         (match choose_suite g o o sl with Some s -> Printf.sprintf "ccs=0:%04x" (i s.s_id) | None -> "ccs=-1:0000")
+  | ["sg"; fl; ids] ->
+      let (f, c) = parse_supported_groups (nh fl) (csv 10 ids) in Printf.sprintf "sg=0:%x:%d" (i f) (i c)
+  | ["psa"; sup; l] ->
+      let (sh, pe) = parse_sigalgs (csv 16 sup) (csv 16 l) N0 N0 in Printf.sprintf "psa=0:%x:%x" (i sh) (i pe)
+  | ["csa"; cert; ka; ks; mask] ->
+      (match choose_sigalg_int (ni cert) (ni ka) (ni ks) (ni mask) with Some a -> Printf.sprintf "csa=%d" (i a) | None -> "csa=U")
+  | ["ske"; t13; g13; ecf; sa; act; rsa; dsa; ct; curve; alg; ptok; sigok] ->
+      let q = { q_tls13_hello = (t13 = "1"); q_groups13 = csv 10 g13; q_ecflags = nh ecf; q_sigalgs = csv 16 sa; q_active = ni act;
+                q_rsa_suite = (rsa = "1"); q_dsa_suite = (dsa = "1") } in
+      let k = { k_curve_type = ni ct; k_curve = ni curve; k_alg = (if alg = "-" then None else Some (nh alg)); k_point_ok = (ptok = "1"); k_sig_ok = (sigok = "1") } in
+      (match client_ske q k with Ok _ -> "ok" | Err a -> Printf.sprintf "err %d" (i a))
+  | ["cva"; shared; alg] ->
+      (match server_cv_alg (nh shared) (nh alg) with Ok _ -> "ok" | Err a -> Printf.sprintf "err %d" (i a))
+  | ["chellog"; sp; sdis; sreq; legacy; sv; suites; nullcomp; ems; ok; ecf; kcurve; groups] ->
+      let s = { sv_ver = vc (csv 10 sp); sv_disabled_global = []; sv_disabled = csv 16 sdis; sv_require_ems = (sreq = "1") } in
+      let h = { h_ver = { ch_legacy = ni legacy; ch_sv = (if sv = "none" then None else Some (csv 10 sv)) };
+                h_suites = csv 16 suites; h_null_comp = (nullcomp = "1"); h_ems = (if ems = "-" then None else Some (ni ems)) } in
+      let o = okf (csv 16 ok) in
+      (match server_client_hello_g s (nh ecf) (ni kcurve) o o h (if groups = "none" then None else Some (csv 10 groups)) with
+       | Ok (a, g) -> pr_acc a ^ (match g with Some c -> Printf.sprintf " g=%d" (i c) | None -> " g=-")
+       | Err a -> Printf.sprintf "err %d" (i a))
   | ["dl"; supp; ok] ->
       String.concat "," (List.map (fun x -> Printf.sprintf "%04x" (i x)) (default_suite_list (ni supp) (okf (csv 16 ok))))
   | ["ksg"; ours; shares] ->
